@@ -464,7 +464,14 @@ func (p *Prog) settingsEncodeMap() (map[string]encEntry, *ast.FuncDecl) {
 			}
 			field := condField
 			for _, a := range c.Args[3:] {
-				if s, ok := p.shiftOf(a); ok {
+				if id, ok := a.(*ast.Ident); ok && p.constOf(a) == nil {
+					// a local octet that is 0 unless a boolean field is set:
+					// `var x byte; if st.f { x = 1 }`
+					if f, ok := p.boolOctetOf(fd, id.Name); ok {
+						e.shifts = append(e.shifts, -200)
+						field = f
+					}
+				} else if s, ok := p.shiftOf(a); ok {
 					e.shifts = append(e.shifts, s)
 				} else if v, ok := p.intConst(a); ok {
 					e.shifts = append(e.shifts, -100-v)
@@ -510,6 +517,35 @@ func (p *Prog) settingsEncodeMap() (map[string]encEntry, *ast.FuncDecl) {
 	return m, fd
 }
 
+// boolOctetOf: is name a local of fd declared `var name byte` whose only
+// assignment is `name = 1` as the whole body of `if st.<field>`? It answers the
+// field.
+func (p *Prog) boolOctetOf(fd *ast.FuncDecl, name string) (string, bool) {
+	declared, field, assigns := false, "", 0
+	ast.Inspect(fd.Body, func(n ast.Node) bool {
+		switch x := n.(type) {
+		case *ast.ValueSpec:
+			if len(x.Names) == 1 && x.Names[0].Name == name && len(x.Values) == 0 && p.text(x.Type) == "byte" {
+				declared = true
+			}
+		case *ast.AssignStmt:
+			for _, l := range x.Lhs {
+				if p.text(l) == name {
+					assigns++
+				}
+			}
+		case *ast.IfStmt:
+			if sel, ok := ast.Unparen(x.Cond).(*ast.SelectorExpr); ok && x.Else == nil && len(x.Body.List) == 1 && squash(p.text(x.Body.List[0])) == name+"=1" {
+				if o, f, ok := p.fieldOf(sel); ok && o == "Settings" {
+					field = f
+				}
+			}
+		}
+		return true
+	})
+	return field, declared && field != "" && assigns == 1
+}
+
 func ruleSettingsCodec(p *Prog, r *Out) {
 	rd, _, rfd := p.settingsReadMap()
 	enc, efd := p.settingsEncodeMap()
@@ -527,8 +563,9 @@ func ruleSettingsCodec(p *Prog, r *Out) {
 		r.check(ok && e.id == id, fmt.Sprintf("Encode %s", want), p.pos(efd.Pos()), fmt.Sprintf("%s written under id %d", want, id),
 			fmt.Sprintf("Settings.Encode writes field %s under identifier %d (found=%v); Read stores identifier %d there, so the two ends disagree on what the value means", want, e.id, ok, id))
 		if ok && want == "enablePush" {
-			good := len(e.shifts) == 4 && e.shifts[0] == -100 && e.shifts[1] == -100 && e.shifts[2] == -100 && e.shifts[3] == -101
-			r.check(good, "Encode enablePush value bytes", p.pos(efd.Pos()), "0,0,0,1", "Settings.Encode no longer writes ENABLE_PUSH=1 as the octets 0,0,0,1")
+			// 0,0,0,1 under `if enablePush`, or 0,0,0,x with x = 1 exactly when enablePush
+			good := len(e.shifts) == 4 && e.shifts[0] == -100 && e.shifts[1] == -100 && e.shifts[2] == -100 && (e.shifts[3] == -101 || e.shifts[3] == -200)
+			r.check(good, "Encode enablePush value bytes", p.pos(efd.Pos()), "0,0,0,1 when set (0,0,0,0 otherwise, if written at all)", "Settings.Encode no longer writes ENABLE_PUSH as the octets 0,0,0,1 when push is enabled (and 0,0,0,0 when it is not)")
 		}
 		if ok && want != "enablePush" {
 			good := len(e.shifts) == 4 && e.shifts[0] == 24 && e.shifts[1] == 16 && e.shifts[2] == 8 && e.shifts[3] == 0
@@ -876,6 +913,81 @@ func ruleSettingsAck(p *Prog, r *Out) {
 	}
 }
 
+// settingsMergeOK: Read records which parameter ids a frame carried, and
+// applyTo changes in its destination exactly the parameters recorded.
+func (p *Prog) settingsMergeOK() (bool, []string) {
+	if v, ok := p.memo["settingsMergeOK"]; ok {
+		x := v.([]interface{})
+		return x[0].(bool), x[1].([]string)
+	}
+	var why []string
+	fail := func(s string) { why = append(why, s) }
+	idName := map[string]int64{"HeaderTableSize": 1, "EnablePush": 2, "MaxConcurrentStreams": 3, "MaxWindowSize": 4, "MaxFrameSize": 5, "MaxHeaderListSize": 6}
+	if fd := p.decl("(*Settings).applyTo"); fd == nil {
+		fail("(*Settings).applyTo no longer resolves")
+	} else {
+		seen := map[int64]bool{}
+		for _, s := range fd.Body.List {
+			ifs, ok := s.(*ast.IfStmt)
+			if !ok || ifs.Else != nil || len(ifs.Body.List) != 1 {
+				fail("applyTo has a statement that is not `if st.has(ID) { dst.f = st.f }`")
+				continue
+			}
+			c, ok := ast.Unparen(ifs.Cond).(*ast.CallExpr)
+			if !ok || p.calleeOf(c) != "(*Settings).has" || len(c.Args) != 1 || p.text(c.Fun.(*ast.SelectorExpr).X) != "st" {
+				fail("applyTo copies a parameter under something other than its presence bit")
+				continue
+			}
+			id, ok := idName[p.text(c.Args[0])]
+			if !ok {
+				fail("applyTo tests an unknown parameter id")
+				continue
+			}
+			f := settingsFieldOfID[id]
+			if squash(p.text(ifs.Body.List[0])) != "dst."+f+"=st."+f {
+				fail(fmt.Sprintf("under the presence bit of %s applyTo no longer copies field %s", settingsIDs[id], f))
+			}
+			seen[id] = true
+		}
+		for id := int64(1); id <= 6; id++ {
+			if !seen[id] {
+				fail(fmt.Sprintf("applyTo no longer applies %s", settingsIDs[id]))
+			}
+		}
+	}
+	if fd := p.decl("(*Settings).has"); fd == nil {
+		fail("(*Settings).has no longer resolves")
+	} else if res := singleReturn(fd); res == nil || squash(p.text(res)) != "st.present&(1<<id)!=0" {
+		fail("has no longer tests bit id of present")
+	}
+	if fd := p.decl("(*Settings).Read"); fd == nil {
+		fail("(*Settings).Read no longer resolves")
+	} else {
+		okMark := false
+		ast.Inspect(fd.Body, func(n ast.Node) bool {
+			fs, ok := n.(*ast.ForStmt)
+			if !ok {
+				return true
+			}
+			for _, s := range fs.Body.List {
+				ifs, ok := s.(*ast.IfStmt)
+				if ok && p.isConjunctionOf(ifs.Cond, "key>=HeaderTableSize", "key<=MaxHeaderListSize") && len(ifs.Body.List) == 1 && squash(p.text(ifs.Body.List[0])) == "st.present|=1<<key" {
+					okMark = true
+				}
+			}
+			return true
+		})
+		if !okMark {
+			fail("Read no longer records, for every parameter of a known id and at the top level of its loop, that the id was present")
+		}
+	}
+	if fd := p.decl("(*Settings).Reset"); fd == nil || !hasStmt(p, fd.Body.List, "st.present=0") {
+		fail("Reset no longer clears the presence bits: a pooled Settings carries those of the previous frame")
+	}
+	p.memo["settingsMergeOK"] = []interface{}{len(why) == 0, why}
+	return len(why) == 0, why
+}
+
 func ruleSettingsPresence(p *Prog, r *Out) {
 	// getters of received values; the presence marker field for each
 	getter := map[string]string{
@@ -944,7 +1056,30 @@ func ruleSettingsPresence(p *Prog, r *Out) {
 					}
 				}
 			}
-			sites = append(sites, site{fnName, field, p.pos(at.Pos()), guarded && hasMarker[m]})
+			guarded = guarded && hasMarker[m]
+			// a value read from the endpoint's record of the peer's settings is
+			// what the peer last sent for that parameter when the record is
+			// filled by applyTo (present parameters only) and by nothing else
+			if sel, ok := at.(*ast.CallExpr); ok {
+				if fs, ok := sel.Fun.(*ast.SelectorExpr); ok && p.text(fs.X) != "st" {
+					rec := p.text(fs.X)
+					merged, copied := false, false
+					inspectCalls(fd.Body, func(c *ast.CallExpr) {
+						if len(c.Args) == 1 && squash(p.text(c.Args[0])) == "&"+rec {
+							switch p.calleeOf(c) {
+							case "(*Settings).applyTo":
+								merged = true
+							case "(*Settings).CopyTo":
+								copied = true
+							}
+						}
+					})
+					if okm, _ := p.settingsMergeOK(); okm && merged && !copied {
+						guarded = true
+					}
+				}
+			}
+			sites = append(sites, site{fnName, field, p.pos(at.Pos()), guarded})
 			return true
 		})
 	}
